@@ -26,6 +26,9 @@ def q_grammar(side: str) -> Grammar:
         A("mixed1", 2, "{io} - {io} - {io}"), A("mixed2", 2, "{io} - ({io} - {io})"), A("mixed3", 2, "{io} * {io} + {io}"),
         A("mixed4", 2, "{io} * ({io} + {io})"), A("mixed5", 2, "{io} / 2 * 2"), A("mixed6", 2, "{io} / (2 * 2)"),
         A("mixed7", 2, "-{io} - -{io}"), A("mixed8", 2, "{io} % 2 * 3"),
+        # chains of divisions (a generator that treats the operands of a flattened left-deep chain differently from a single division)
+        A("div_chain", 1, "{io} / 2 / 2"), A("div_chain3", 1, "{io} / 2 / 3 / 2"), A("div_mul_div", 1, "{io} / 2 * 3 / 2"), A("div_paren_chain", 1, "({io} / 2) / 2"),
+        A("div_right", 1, "{io} / (4 / 2)"), A("mod_div", 1, "{io} % 3 / 2"), A("lit_div_chain", 1, "7 / {io2} / 2"), A("add_div_chain", 1, "({io} + 1) / 2 / 2"),
     ]
     ifun = [
         A("case", 1, "CASE WHEN {c} THEN {i} ELSE {i} END"), A("case_noelse", 1, "CASE WHEN {c} THEN {i} END"),
